@@ -139,6 +139,7 @@ def series_pairs(res, oid, pairs, G, tol, minprec=6, group_input=False, order=18
     canary_seen = False
     t00 = time.time()
     per_sign = []
+    tmax = tmax_of(pv)
     try:
         for sg in signs:
             ctx = jet_ctx(G, sg, order, prefix, group_input)
@@ -171,7 +172,7 @@ def series_pairs(res, oid, pairs, G, tol, minprec=6, group_input=False, order=18
                 ref = scale.get(mu, Fraction(0))
                 if ref == 0:
                     ref = Fraction(1)
-                b = _order_bound(ctx, part, TMAX)
+                b = _order_bound(ctx, part, tmax)
                 worst = max(worst, float(b / ref))
                 if b > tol * ref:
                     ok = False
@@ -195,6 +196,19 @@ def series_pairs(res, oid, pairs, G, tol, minprec=6, group_input=False, order=18
                     extra=dict(replay=write_replay("%s/%s" % (oid, entry), payload), confirmed=bool(w and w.get("confirmed"))))
     if expect_fail:
         res.add(oid, "canary-refuted" if canary_seen else "canary-not-refuted", "jet", 0.0)
+
+
+def tmax_of(pv):
+    """largest rotation norm on a small-angle path: sqrt of the switch constant the *code* compares against"""
+    if pv is None or not getattr(pv, "switch", None):
+        return TMAX
+    import math
+    cs = [c for (key, c), outc in pv.switch.items() if (outc - {"UN"}) <= {"LT", "EQ"}]
+    if not cs:
+        return TMAX
+    c = max(cs)
+    r = Fraction(math.isqrt(int(c * 10 ** 30)) + 1, 10 ** 15)
+    return r
 
 
 def _keepmask(ctx, unit_atoms):
@@ -304,3 +318,87 @@ def subst_fn(nodes, mapping):
 def signvars(G, prefix="a"):
     """scalar rotation coordinates of planar groups: closed-form code reaches them through sqrt(x^2)"""
     return ["%s%d" % (prefix, i) for i in G.rot] if G.rot_kind == "so2" else None
+
+
+# ----------------------------------------------------------------------------------------- bounded stand-in (rounding)
+def rot_grid(tier, s):
+    """stratified rotation norms: log grid, both sides of the small-angle switch (+- a few ulps), generic, up to 50"""
+    import math
+    g = []
+    n = 13 if tier == "quick" else 49
+    for i in range(n):
+        g.append(10 ** (-12 + 10 * i / (n - 1)))          # 1e-12 .. 1e-2
+    sw = 1e-4
+    for k in (1, 2, 8, 64):
+        g += [sw * (1 - k * 2.3e-16), sw * (1 + k * 2.3e-16)]
+    g += [sw * 0.999, sw * 1.001, sw * 1.1, sw * 3, 1e-3 * 3]
+    g += [0.05, 0.3, 1.0, 2.0, 3.0] if tier == "quick" else [0.05, 0.1, 0.3, 0.7, 1.0, 1.5, 2.0, 2.5, 3.0, 3.1]
+    return g
+
+
+def region_of(th):
+    if th < 1e-6:
+        return "tiny"
+    if th < 1e-4:
+        return "below-switch"
+    if th < 1e-3:
+        return "above-switch"
+    return "generic"
+
+
+def rounding_standin(res, oid, f, G, tol, outbuf, tier, seed=0, tscales=(1.0,), max_rot=None, extra_sampler=None):
+    """BOUNDED stand-in (sampling, proves nothing): the natively compiled real code vs the 60-digit evaluation of the
+    op-DAG of the path it takes, on a stratified grid.  Error is measured relative to the largest exact entry."""
+    import random
+    import struct
+    rng = random.Random(seed + 101)
+    s = f.s
+    pts = 0
+    worst = {}
+    fails = {}
+    views = [v for v in f.views if v.status == "ok"]
+    if G.name == "C1":
+        tscales = (1.0,)          # the non-rotation coordinate of C1 is a log-scale: exp(1e3) is not a finite double
+    for th in rot_grid(tier, s):
+        if max_rot is not None and th > max_rot:
+            continue
+        for ts in tscales:
+            env = G.sample_tangent(rng, "a", rotnorm=th, tscale=ts)
+            if extra_sampler:
+                env.update(extra_sampler(rng))
+            if s == "f":
+                env = {k: dag.f32(v) for k, v in env.items()}
+            pv = [v for v in views if engine.path_holds(v, env)]
+            if len(pv) != 1:
+                continue
+            try:
+                nat = f.xt.call_native(f.fn, f.bufs, env, "so-gcc")[outbuf]
+                ex = eval_mp(pv[0].out(outbuf), env)
+            except Exception:
+                continue
+            pts += 1
+            ref = max(abs(x) for x in ex)
+            if ref == 0:
+                ref = 1
+            err = max(abs(a - b) for a, b in zip(nat, ex)) / ref
+            reg = region_of(th)
+            if float(err) > worst.get(reg, (0, None))[0]:
+                worst[reg] = (float(err), env)
+            if float(err) > float(tol):
+                fails.setdefault(reg, (float(err), env))
+    stand = dict(function=f.fn, scalar=s, points=pts, grid="rotation norm 1e-12..3 incl. +-64 ulp around the switch; translation scales %r" % (tscales,),
+                 max_rel_err={k: v[0] for k, v in worst.items()}, tolerance=float(tol), label="bounded")
+    res.standins.append(stand)
+    for reg in ("tiny", "below-switch", "above-switch", "generic"):
+        if reg not in worst:
+            continue
+        rid = "%s/standin/%s" % (oid, reg)
+        if reg in fails:
+            err, env = fails[reg]
+            payload = dict(obligation=rid, property=res.prop, backend="bounded-standin",
+                           reason="native result differs from the 60-digit evaluation of its own op-DAG by %.3g relative to the largest entry (tolerance %.3g)" % (err, float(tol)),
+                           witness=dict(env=fmt_env(env), rel_err=err), native=native_replay(f.call(), env, None))
+            res.add(rid, "bounded-fail", "bounded-standin", 0.0, payload["reason"], witness=payload["witness"],
+                    extra=dict(replay=write_replay(rid, payload), confirmed=True))
+        else:
+            res.add(rid, "bounded-ok", "bounded-standin", 0.0, "max rel err %.3g <= %.3g" % (worst[reg][0], float(tol)))
